@@ -6,6 +6,10 @@ ROOT = os.path.dirname(os.path.dirname(os.path.abspath(__file__)))
 
 # property id -> (technique, level text, level note, design ref)
 CHECKS = {
+ "C01": ("static analysis of the contract-enforcing types: CFG dominance of every delivery by the status gate (GATE), enumeration of all status writes (STATUS-MONOTONE), use-discipline of the destination parameter in every Observable implementation (WRAP), subject gates (SUBJECT-GATE), refusal branches (DROP-HOOK), lock region (LOCK-REGION)",
+         "Static check of the structural premises from which the notification grammar follows for every pipeline and schedule: each delivery in subscriberImpl/observerImpl/subjects is dominated by the open-status test or a won compare-and-swap, the status only moves away from open, every Observable implementation wraps its destination, refused notifications reach the hook. These premises are decided exhaustively on every run; the short interleaving argument that turns them into the property is written in DESIGN.md and is not machine-checked. One test-asserted violation (observer stays open after a panicking Next) is a known finding.",
+         "Trusted: sync/atomic and sync.Mutex; users' own Observer implementations are out of scope.",
+         "DESIGN.md section 4, C01"),
  "C05": ("static structural clauses only: ERR-PROPAGATION (error slot of every upstream subscribe site reaches an Error notification to the destination, from the subscribe-closure model) and ARITY (K+1 sites / K+1-tuples / counter constants of the CombineLatestWithK and ZipWithK families)",
          "Narrow claim. The property quantifies over arrival orders (run-time histories), which static analysis cannot decide; what is decided is one of its clauses that is visible in the code's shape — 'an error from any source ends the output': every subscribe site's error slot forwards to the destination unless the operator consumes errors by definition — plus arity agreement of the fixed-arity families. Ordering, completion timing, loss/duplication are NOT decided.",
          "Trusted: C01 (first terminal closes the destination) and C03 (teardown releases the other sources). Two test-asserted violations (TakeUntil/SkipUntil swallow the notifier's error) are known findings.",
